@@ -522,6 +522,8 @@ structure Caps where
   isSplit : Bool := false
   /-- `el is None` -/
   isNone : Bool := false
+  /-- `callable(run)` for the object handed over as `run=` in `Run(None, run=…)` (only looked at when `el is None`) -/
+  givenCallable : Bool := true
 
 /-- `callable(getattr(el, name, None))` -/
 def Caps.hasMethod (c : Caps) (name : String) : Bool := (c.attr name).callable
@@ -581,7 +583,9 @@ def mkRun (c : Caps) (name : Option String) : Except Exc RunMode :=
     else if c.isFillComputeEl then .ok .fcRun
     else .error .lenaTypeError
   | some n =>
-    if c.isNone then .ok .given
+    if c.isNone then
+      -- `if el is None: if not callable(run): raise LenaTypeError` (fix 0ff1b62)
+      if c.givenCallable then .ok .given else .error .lenaTypeError
     else if c.hasMethod n then .ok (.method n)
     else .error .lenaTypeError
 
@@ -1009,7 +1013,7 @@ def sourceElAccepts (c : Caps) : Option String → Bool
 
 def runAccepts (c : Caps) : Option String → Bool
   | none => c.hasMethod "run" || c.callable || c.isFillComputeEl
-  | some n => c.isNone || c.hasMethod n
+  | some n => if c.isNone then c.givenCallable else c.hasMethod n
 
 def fillIntoAccepts (c : Caps) : Option String → Bool
   | none => c.hasMethod "fill_into" || (c.callable && !c.isSplit) || (c.isRunEl && (c.attr "_can_break_flow").present)
